@@ -90,6 +90,13 @@ def r1(cx, rec):
         end = any(re.search(r'\.2\.%s$' % OFF, x) for x in d)
         any_end = any_end or end
         rec.site(E, bb, 'write_all: depends on start offset=%s, end offset=%s' % (start, end))
+        if end:
+            # the chunk taken from the file's last piece is `end offset - bytes skipped` long: a length that is the end offset
+            # alone over-reads whenever the file starts inside the same piece
+            diff = [x for x in d if re.match(r'^Sub(WithOverflow)?\(', x) and re.search(r'\.2\.%s, ' % OFF, x)]
+            rec.need(bool(diff), 'last-chunk-length', E, bb,
+                     'the bytes written from the file\'s last piece are not limited to `end offset - skipped bytes`: a file that starts '
+                     'inside that piece receives bytes that belong to the following files')
         rec.need(start, 'write-independent-of-start-offset/' + ('with-end' if end else 'whole'), E, bb,
                  'the bytes written here cannot vary with the offset at which the file starts inside its first piece '
                  '(no seek / slice / length derived from it reaches this write): a file that begins in the middle of a '
@@ -245,5 +252,15 @@ def r4(cx, rec):
                         g2 = True
                         rec.site(L, sb, 'last piece: remainder if non-zero else piece length')
     rec.site(L, None, 'returns: %s' % [show(e)[:50] for bi, e in rets])
+    # lengths and offsets are 64-bit quantities: no narrowing conversion on the way (content of 4 GiB and more)
+    for g in (L, C.one(C.fns_constructing(F, r'^metainfo::PiecePos$', 'PiecePos'), 'constructor of PiecePos'), ranges_fn(F)):
+        narrow = []
+        for bi, si, s in g.assigns():
+            for x in walk(g.expr_rvalue(s['rv']), inl=False):
+                if x[0] == 'cast' and x[2] in ('u32', 'i32', 'u16', 'i16', 'u8', 'i8') and x[1][0] != 'const':
+                    narrow.append((bi, x))
+        for bi, x in narrow[:1]:
+            rec.violation('narrowing-cast/' + g.name, g, bi, 'a length/offset is converted to %s (%s): sizes of 4 GiB and more are computed '
+                          'modulo 2^32 and the piece lengths no longer add up to the content' % (x[2], show(x)[:60]))
     rec.need(g1, 'piece-length/non-last', L, None, 'pieces before the last one do not get the full piece length under `i < pieces - 1`')
     rec.need(g2, 'piece-length/last', L, None, 'the last piece is not `total % piece_length` (full piece when 0)')
